@@ -235,6 +235,20 @@ func runC07(c *core.Ctx) {
 		}
 		bounds = append(bounds, fmt.Sprintf("%d builtins/extensions (restricted IO configuration) x every value in argument positions 1 and 2, third position from a 6-value subset", len(fns)))
 	}
+	// 2b. user functions called (twice: cache miss then hit) with every value alone and inside small containers, as
+	//     element, map value and map key (the memoization key is built from the arguments)
+	if ok {
+		wraps := []string{"%s", "[%s]", "{1: %s}", "{%s: 1}", "[{%s: 1}]", "{%s: {%s: 1}}", "[[%s], 2]", "{\"k\": [%s, {%s: %s}]}"}
+		for _, a := range names {
+			for _, w := range wraps {
+				arg := strings.ReplaceAll(w, "%s", a)
+				do("fnargs", prelude, "vfn("+arg+"); vfn("+arg+")")
+				do("fnargs", prelude, "vnamed("+arg+", "+a+"); vnamed("+arg+", "+a+")")
+				do("fnargs", prelude, "vvar(1, "+arg+"); vvar(1, "+arg+")")
+			}
+		}
+		bounds = append(bounds, fmt.Sprintf("user functions called twice with every value in %d container wrappings (element, map value, map key, nested)", len(wraps)))
+	}
 	// 3a. the stateful image API: two images of every size combination x every image operation with boundary arguments
 	if ok {
 		dims := []int{0, 1, 2, 5}
